@@ -254,6 +254,9 @@ def _flags(check: Check):
 
 def _sqlite(check: Check):
   repo = check.repo
+  # reading back: interleaved passes over the written file must not steal each other's rows
+  from fjsa.props import c08
+  c08._cursors(check, 'R-PAIR.cursor')
   rd = repo.func(SQL, 'decompress_and_deserialize')
   rff = FuncFlow.of(repo, rd)
   check.analysed(rd)
